@@ -16,7 +16,7 @@ import random
 import re
 import time
 
-from . import common, gwdriver, tlc
+from . import common, gwdriver, suite, tlc
 
 ID_EMBED = {0: 0, 1: 1, 2: 2, 3: 3, 4: 252, 5: 253, 6: 254, 7: 7, 255: 255}
 
@@ -466,6 +466,21 @@ def check(prop: str) -> int:
         import shutil
         shutil.rmtree(workdir, ignore_errors=True)
         traces = execute(jobs)
+        # executions recorded from the repository's own gateway tests (harness/suite.py)
+        sdoc = suite.record()
+        straces = suite.as_traces(sdoc)
+        for t in straces:
+            if t["direct"] and prop == "C04":
+                rep.violation({"k": "several-lines-one-result"},
+                              {"kind": "gateway-history", "focus": sorted(spec["focus"]), "input": t["input"],
+                               "rejected_at_event": t["direct"]["after_events"] + 1,
+                               "failing_clauses": ["every handled line is yielded exactly once"], "recorded": t["direct"]},
+                              f"test {t['input']['suite_test']}: one listen step consumed several lines: {t['direct']['lines']}")
+        straces = [t for t in straces if t["events"]]
+        traces += straces
+        rep.cov["suite_traces"] = {"recorded_from": suite.TARGETS, "traces": len(straces),
+                                   "events": sum(len(t["events"]) for t in straces),
+                                   "gateways_not_recorded": len(sdoc["skipped"]), "pytest": sdoc["pytest_tail"]}
         # A public value outside the model's domain (a non-integer id, a non-string text, an integer the
         # harness never feeds) can only come from a defect: such an execution is reported directly
         # (TLC cannot compare values of different kinds) and is not sent to trace validation.
@@ -519,6 +534,20 @@ def replay(doc: dict) -> int:
     """Re-execute the input of a replay file on the current code and validate it again."""
     common.enter_scratch()
     inp = doc["input"]
+    if "suite_test" in inp:
+        sdoc = suite.record(only=os.path.join(common.REPO_ROOT, inp["suite_test"]))
+        cands = [t for t in suite.as_traces(sdoc) if t["input"] == inp and t["events"]]
+        if not cands:
+            print("replay: the test no longer produces a recorded execution")
+            return 2
+        res = tlc.validate([{"init": cands[0]["init"], "events": cands[0]["events"]}], set(doc["focus"]), shards=1)
+        status, pos = res["verdicts"][0]
+        if status == "reject":
+            print(f"VIOLATION property={doc['property']} replay=(this file)")
+            print("  " + explain(cands[0], pos, set(doc["focus"])))
+            return 1
+        print("replay: the execution recorded from the test is accepted by the reference on the current tree")
+        return 0
     events = []
     for ev in inp["events"]:
         ev = dict(ev)
